@@ -36,7 +36,7 @@ ReplTable == << <<>>, << <<"XX", "a">> >>, << <<"XX", "">> >>, << <<"XX", "YY">>
 SlibTable == << <<"S">>, <<"S", "L">> >>
 LibTable(c) == CASE c = "small" -> { <<"a">>, <<"b">> }
                  [] c = "one"   -> { <<"a">> }
-                 [] c = "repl"  -> { <<"a">>, <<"XX">>, <<"XX", "b">>, <<"a", "b">> }
+                 [] c = "repl"  -> { <<"a">>, <<"XX">>, <<"XX", "b">>, <<"a", "b">>, <<"XX", "XX">> }
                  [] c = "merge" -> { <<"a", "ba", "c">>, <<"ab", "a", "c">>, <<"a", "ba", "d">> }
 SrrLibs == { <<"SRR12">>, <<"SRR13">> }
 Libs == LibTable(LibChoice)
